@@ -12,6 +12,8 @@ use serde_json::Value;
 use serde_json::json;
 
 struct ScriptedLoader {
+  /// headers served with a Module answer
+  headers: Option<HashMap<String, String>>,
   /// content served for a Module answer
   content: Vec<u8>,
   x: &'static str,
@@ -62,7 +64,7 @@ impl Loader for ScriptedLoader {
     let i = self.note("load", &options);
     let a = self.answers.get(i).cloned().unwrap_or_else(|| "NotFound".to_string());
     let r: LoadResult = match a.as_str() {
-      "Module" => Ok(Some(LoadResponse::Module { content: Arc::from(self.content.clone()), mtime: None, specifier: specifier.clone(), maybe_headers: None })),
+      "Module" => Ok(Some(LoadResponse::Module { content: Arc::from(self.content.clone()), mtime: None, specifier: specifier.clone(), maybe_headers: self.headers.clone() })),
       "Redirect" => Ok(Some(LoadResponse::Redirect { specifier: ModuleSpecifier::parse(Y).unwrap() })),
       "SelfRedirect" => Ok(Some(LoadResponse::Redirect { specifier: specifier.clone() })),
       "External" => Ok(Some(LoadResponse::External { specifier: specifier.clone() })),
@@ -97,6 +99,8 @@ pub fn run_op(op: &Value) -> Value {
   let asset = op["asset"].as_bool().unwrap();
   let attrs = if asset {
     ImportAttributes::Known(HashMap::from([("type".to_string(), ImportAttribute::Known("text".to_string()))]))
+  } else if op["json_attr"].as_bool().unwrap_or(false) {
+    ImportAttributes::Known(HashMap::from([("type".to_string(), ImportAttribute::Known("json".to_string()))]))
   } else { ImportAttributes::None };
   // route: "plain" (an ordinary https module), "registry_url" (an https URL into the registry: the version manifest is fetched
   // first), "jsr_specifier" (a jsr: import: the file is loaded with embedded version info)
@@ -122,8 +126,10 @@ pub fn run_op(op: &Value) -> Value {
     }
   }
   let analyzer = A(ModuleInfo { dependencies: vec![dep], ..Default::default() });
-  let served: Vec<u8> = if op["content_bom"].as_bool().unwrap_or(false) { vec![0xEF, 0xBB, 0xBF, b'1'] } else { vec![] };
+  let utf16 = op["headers_charset"].as_bool().unwrap_or(false);
+  let served: Vec<u8> = if op["content_bom"].as_bool().unwrap_or(false) { vec![0xEF, 0xBB, 0xBF, b'1'] } else if utf16 { vec![0x31, 0x00] } else { vec![] };
   let loader = ScriptedLoader {
+    headers: if utf16 { Some(HashMap::from([("content-type".to_string(), "application/typescript; charset=utf-16le".to_string())])) } else { None },
     content: served.clone(),
     x, version_meta,
     answers: op["answers"].as_array().unwrap().iter().map(|a| a.as_str().unwrap().to_string()).collect(),
@@ -257,7 +263,7 @@ pub fn run_manifest_lock_op(op: &Value) -> Value {
     }
   }
   let analyzer = A(ModuleInfo { dependencies: vec![dep], ..Default::default() });
-  let loader = ScriptedLoader { content: vec![], x: REG_X, version_meta: Some(meta.clone()), answers: vec!["Module".to_string()], calls: RefCell::new(vec![]), max_redirects: 10 };
+  let loader = ScriptedLoader { headers: None, content: vec![], x: REG_X, version_meta: Some(meta.clone()), answers: vec!["Module".to_string()], calls: RefCell::new(vec![]), max_redirects: 10 };
   let nv = deno_semver::package::PackageNv::from_str("@a/b@1.0.0").unwrap();
   let mut locker = HashMapLocker::default();
   let old = "0".repeat(64);
